@@ -18,7 +18,7 @@ func init() {
 			"> 0 and has a positive divisor (a guarded duration, or the window length whose every store is a positive constant), and the complementary branch yields the constant 0; " +
 			"C20.started - each of the 8 public getters reaches the meter only under 'started', the other branch panics; C20.scale - the four bitrate getters apply the same x8 /1000 " +
 			"to the matching underlying window, the four request-rate getters none; C20.window - the per-window numerator is (observed - previous count) of the same receiver, the divisor its " +
-			"own interval, count/lastSample are updated on every path that consumes the sample and no path that touched the window answers false (doSample reads false as 'not due yet' and ends the cascade), each getter reads its own window, and all three windows are sampled. " +
+			"own interval, no operand of a rate passes through an integer narrower than 64 bits, the average's start time is stored only together with its baseline, count/lastSample are updated on every path that consumes the sample and no path that touched the window answers false (doSample reads false as 'not due yet' and ends the cascade), each getter reads its own window, and all three windows are sampled. " +
 			"Not decided: numerical equality with growth/window for all observation histories (runtime arithmetic).",
 		Assume: []string{"time.Duration constants are evaluated by go/types", "float64 division of a positive by a positive finite value is finite and positive"},
 		Run:    runC20,
@@ -259,6 +259,42 @@ func runC20(c *Ctx) {
 					fmt.Sprintf("the rate is not growth per second at millisecond (or finer) granularity: growth x %d / (elapsed / %dns), K x U = %dns (expected 1e9ns, U <= 1e6ns): sub-unit elapsed time is truncated away and the rate is overstated", k, u, k*u), nil)
 			} else {
 				R.Note("C20.units", key+"|per-second", P.InstrPos(bo), "rate formula shape not recognised for the unit check (no obligation)")
+			}
+			// neither operand passes through an integer narrower than 64 bits: elapsed milliseconds overflow 31 bits after
+			// 24.8 days of uptime, a counter difference after 2^31 requests - the rate turns 0, negative or absurd
+			{
+				narrow := ""
+				var scan func(v ssa.Value, d int)
+				scan = func(v ssa.Value, d int) {
+					if d > 10 || v == nil || narrow != "" {
+						return
+					}
+					switch x := c20Subst(v).(type) {
+					case *ssa.Convert:
+						if bt, ok := x.Type().Underlying().(*types.Basic); ok && bt.Info()&types.IsInteger != 0 {
+							switch bt.Kind() {
+							case types.Int8, types.Int16, types.Int32, types.Uint8, types.Uint16, types.Uint32:
+								narrow = fmt.Sprintf("%s converted to %s at %s", core.Path(x.X), bt.Name(), P.InstrPos(x))
+								return
+							}
+						}
+						scan(x.X, d+1)
+					case *ssa.ChangeType:
+						scan(x.X, d+1)
+					case *ssa.BinOp:
+						scan(x.X, d+1)
+						scan(x.Y, d+1)
+					case *ssa.Phi:
+						for _, e := range x.Edges {
+							scan(e, d+1)
+						}
+					}
+				}
+				scan(bo.X, 0)
+				scan(bo.Y, 0)
+				R.Check(narrow == "", "C20.units", key+"|no-narrow-integer", P.InstrPos(bo),
+					"growth and elapsed time stay 64 bits wide up to the division",
+					"an operand of the rate passes through a narrow integer ("+narrow+"): it wraps for a meter that has been up for weeks (2^31 ms = 24.8 days) or has counted 2^31 events, and the rate becomes 0, negative or absurdly large", nil)
 			}
 			// the complementary branch of the growth guard yields constant 0
 			for _, g := range core.Guards(gblk) {
@@ -550,6 +586,39 @@ func runC20(c *Ctx) {
 		})
 		R.Check(okc, "C20.window", "kxps|(*sample).sample|count-is-observed", P.Pos(smp.Pos()),
 			"the stored count is the observed counter", "the stored count is not the observed counter", nil)
+	}
+	// the average's start time and its baseline count are one observation: they are only ever stored together (a start
+	// time moved by the sampler's first tick, with the baseline left alone, divides the old growth by too short a time)
+	if kx := P.NamedType("kxps", "kxps"); R.Anchor(kx != nil, "C20.window", "kxps.kxps") {
+		cv, av := structField(kx, "create"), structField(kx, "average")
+		if R.Anchor(cv != nil && av != nil, "C20.window", "kxps.kxps.{create,average}") {
+			bad, n := "", 0
+			for _, fn := range P.ModuleFuncs("kxps") {
+				for _, b := range fn.Blocks {
+					hasC, hasA := false, false
+					var at ssa.Instruction
+					for _, in := range b.Instrs {
+						if st, ok := in.(*ssa.Store); ok {
+							if core.FieldVar(st.Addr) == cv {
+								hasC, at = true, in
+							}
+							if core.FieldVar(st.Addr) == av {
+								hasA = true
+							}
+						}
+					}
+					if hasC {
+						n++
+						if !hasA {
+							bad = core.FuncName(fn) + " at " + P.InstrPos(at)
+						}
+					}
+				}
+			}
+			R.Check(bad == "" && n > 0, "C20.window", "kxps|average|start-time-stored-with-its-baseline", P.Pos(kx.Obj().Pos()),
+				"the average's start time is stored only together with its baseline count",
+				"the average's start time is stored without its baseline count in "+bad+": the two no longer describe one observation, and the average divides the growth since the old baseline by the time since the new start", nil)
+		}
 	}
 	ds := P.Func("kxps", "(*kxps).doSample")
 	if R.Anchor(ds != nil, "C20.window", "kxps.(*kxps).doSample") {
